@@ -58,7 +58,17 @@ and unsafe concurrency (`C20-7` a fire-and-forget goroutine: the Go race detecto
 virtual-time child dies under C20; `C20-8` RunForever returning while a scan is still in flight: missed at first, the race
 workload now counts API calls arriving after the loop returned).
 
-After that all eighty-six are caught by the quick check of the property they were written against.
+A fourth round gave six agents a theme each (state across restarts, time arithmetic, numeric conversions, configuration
+decoding, ordering and partial failure in removal, shared state between groups or scans) and three or four properties to
+choose from: 7 of 12 caught at first try. The five misses: C02-5 (lock age rounded to seconds: clock advances now also land
+400 ms and 1 ms before/after a boundary, so scans fall inside the last half second of a cool-down), C01-6 (taint age wraps
+for times beyond 292 years ahead: far-future values inside int64 added to the external taint values), C16-5 and C16-6
+(multi-document decoding and native YAML decoding: empty leading/trailing documents and keys in another letter case must
+decode like the plain file, in both renderings), C19-6 (removal in slices of 25: profile `bigreap` - groups of 30-60 nodes,
+whole-group taint rates, cloud minimum far above min_nodes - and a check that a batch which breaches the minimum as a whole
+is not executed in part).
+
+After that all ninety-eight are caught by the quick check of the property they were written against.
 
 | Seeded change | Files | What was changed | Needs, to manifest | Quick check of that property |
 |---|---|---|---|---|
